@@ -81,6 +81,9 @@ type CtxSpec struct {
 	FarUs int `json:"far_us,omitempty"`
 	// Edge (deadline): the operation is started exactly when the deadline passes.
 	Edge bool `json:"edge,omitempty"`
+	// Cause (cancel, precancel): a standard context cancelled with a cause
+	// (context.WithCancelCause): the operation still reports a context error.
+	Cause bool `json:"cause,omitempty"`
 }
 
 // StreamOp is one consumer operation.
@@ -141,8 +144,14 @@ func (s *StreamScenario) runOps(rw varlink.ReadWriterContext, base context.Conte
 	begin := func(i int, op StreamOp) context.Context {
 		ctx := base
 		var dctx *sim.DeadlineCtx
+		var cancelCause func()
 		switch op.Ctx.Mode {
 		case "cancel", "precancel":
+			if op.Ctx.Cause {
+				cctx, cancel := context.WithCancelCause(context.Background())
+				ctx, cancelCause = cctx, func() { cancel(errors.New("the caller lost interest")) }
+				break
+			}
 			if op.Ctx.FarUs > 0 {
 				sim.Rec("ctx.deadline", sf(`{"i":%d,"us":%d}`, i, op.Ctx.FarUs))
 			}
@@ -160,7 +169,11 @@ func (s *StreamScenario) runOps(rw varlink.ReadWriterContext, base context.Conte
 		}
 		if op.Ctx.Mode == "precancel" {
 			sim.Rec("cancel.fire", sp(i))
-			dctx.Cancel()
+			if cancelCause != nil {
+				cancelCause()
+			} else {
+				dctx.Cancel()
+			}
 		}
 		sim.Rec("op.start", sp(i))
 		if op.Ctx.Mode == "cancel" || op.Ctx.Mode == "servecancel" {
@@ -174,6 +187,8 @@ func (s *StreamScenario) runOps(rw varlink.ReadWriterContext, base context.Conte
 					if serveCancel != nil {
 						serveCancel()
 					}
+				} else if cancelCause != nil {
+					cancelCause()
 				} else {
 					dctx.Cancel()
 				}
@@ -1115,6 +1130,9 @@ func genC17Stream(seed uint64, tier string) Scenario {
 		}
 		if op.Ctx.Mode == "deadline" && g.Pct(20) {
 			op.Ctx.Edge = true
+		}
+		if (op.Ctx.Mode == "cancel" || op.Ctx.Mode == "precancel") && op.Ctx.FarUs == 0 && g.Pct(15) {
+			op.Ctx.Cause = true
 		}
 		s.Ops = append(s.Ops, op)
 		if op.Ctx.Mode == "servecancel" {
